@@ -307,6 +307,27 @@ def run(ctx):
                         % ([c.line for c in bad1], [c.line for c in bad2]), root.loc())
         else:
             R.ok('f', 'R2', inst, '', root.loc())
+        # the generation is read and installed without a suspension point in between: an await there lets two overlapping refreshes read
+        # the same current generation and install the same "new" one (seed C18-4), so resources of the first stay admissible after the second
+        reads = [c for c in body.calls() if any(glob_match(POOL + '::discriminant', n) for n in c.names())]
+        yields = {bi for bi, b_ in enumerate(body.blocks) if not b_.cleanup and b_.term[0] == 'yield'}
+        inst_y = '%s: no await between reading the current generation and set_discriminant' % fn_short(name)
+        awaited = []
+        for rd in reads:
+            if rd.target is None:
+                continue
+            fwd = body.reach([rd.target], stop={c.bb for c in sets})
+            for y in sorted(yields & fwd):
+                if any(c.bb in body.reach([y]) for c in sets) and not any(r2.bb in body.reach([y], stop={c.bb for c in sets}) for r2 in reads if r2 is not rd and r2.target is not None and r2.bb != rd.bb and False):
+                    # a later re-read of the generation on the way would make the earlier one irrelevant: only the LAST read before the set counts
+                    later = [r2 for r2 in reads if r2 is not rd and r2.bb in body.reach([y], stop={c.bb for c in sets})]
+                    if not later:
+                        awaited.append((rd.line, body.blocks[y].stmts[0][0] if body.blocks[y].stmts else rd.line))
+        if reads and sets and not awaited:
+            R.ok('f', 'R2', inst_y, '%d read(s), %d suspension point(s) in the function' % (len(reads), len(yields)), root.loc())
+        elif reads and sets:
+            R.violation('f', 'R2', inst_y, 'refresh:read-set-atomic:%s' % fn_short(name), 'the generation read at line %s is still the one used after an await (near line %s): an overlapping '
+                        'refresh reads the same value' % (awaited[0][0], awaited[0][1]), root.loc())
         for c in sets:
             og = fn_origins(lf, c.args[1], True)
             if has(og, 'call:' + POOL + '::discriminant'):
